@@ -47,6 +47,9 @@ CHECKS.update({
     "C05": dict(cat="other", ref="DESIGN §8 C05, App. A.2",
                 text="Engine S kernel-stub mode: which entry of a per-bond / per-node limit applies to the bond being cut is decided for all tensor values by probes (limit 1 everywhere "
                      "except on the cut bond; limits equal to the current bond dimensions) through the real chain two-site update, tree compress and tree update_2site. "
+                     "MatrixProduct.compress as a whole (re-extracted from the current source on the shape abstraction, _update_ms and compute_m_trunc by contract, "
+                     "iter_idx_list / _switch_direction inlined) proved for every chain length and both directions: every interior bond is cut once and obeys its own limit "
+                     "(list, integer or configured max_dims), the sweep ends switched. "
                      "Kept-count functions (_fixed_m_trunc, _threshold_m_trunc, compute_m_trunc) proved for all inputs: result <= available singular values and <= "
                      "the limit of the bond the caller truncates; induction lemmas for the threshold count; structural link to the call sites; Eckart-Young / "
                      "TT-SVD sandwich against dense SVD spectra as runtime contracts (chains incl. degenerate spectra and non-uniform limits).",
